@@ -24,6 +24,7 @@ pub fn generate(stream: &str, seed: u64, n: usize, emit: &mut dyn FnMut(String))
 		"single" => ser::generate_single(seed, n, emit),
 		"schema" | "schema-bad" | "names-table" => schema::generate(stream, seed, n, emit),
 		"graph" | "graph-wild" => schema::generate_graph(stream, seed, n, emit),
+		"graph-names" => schema::generate_graph_names(emit),
 		"reuse" => ser::generate_reuse(seed, n, emit),
 		"reuse-table" => ser::generate_reuse_table(emit),
 		"perm" => ser::generate_perm(seed, n, emit),
